@@ -36,6 +36,8 @@ func runC13(w *World, r *Report) {
 	ruleDumpSkip(w, r)
 	ruleDumpVerbatim(w, r)
 	ruleEvRemap(w, r)
+	ruleIntBase(w, r)
+	ruleFmtData(w, r)
 }
 
 // ruleDumpVerbatim: text that has been rendered (a leaf, a nested expression)
@@ -569,7 +571,7 @@ func ruleIfLayout(w *World, r *Report) {
 	r.Check(good, rule, w.Pos(dump.Pos()), "Dump/calAndSetNodes", fmt.Sprintf("children emitted in order %v; Dump selects positions %v", order, sel), "position k of the selection is source child k (condition, true branch, false branch)", "Dump picks the wrong children of an `if` node for the layout the compiler emits: branches are swapped or the fi marker is printed")
 }
 
-var c13Witnesses = append(evRemapWitnesses, []Witness{
+var c13Witnesses = append(append(evRemapWitnesses, wave3WitnessesC13...), []Witness{
 	{Name: "dump-quotes-with-strconv", Rule: "R-CODEC", Edits: []Edit{
 		{File: "util.go", Old: "		res = `\"` + v + `\"`", New: "		res = strconv.Quote(v)"}}},
 	{Name: "dump-list-elements-percent-q", Rule: "R-CODEC", Edits: []Edit{
